@@ -239,9 +239,9 @@ chk("C08", TV,
 chk("C10", MC,
     "seeded random programs (hash-map variables of all integer formats, per-CPU variables, Dict with packed Structure key/value): "
     "every user-space map operation of the Python API runs through the real wrappers symbolically; the ctypes layer is replaced "
-    "by a kernel model proving for each call that key and value buffers cover what the kernel accesses (per-CPU: value size "
-    "rounded up to 8 times possible CPUs, possible >= online an engine decision). Sizes are concrete per program: mostly "
-    "exhaustive exploration, small solver part.",
+    "by a kernel model proving for each call that key and value buffers cover what the kernel accesses; for per-CPU maps the "
+    "number of possible CPUs is a solver variable (online..4096) and z3 decides buffer >= value size rounded up to 8 x possible "
+    "CPUs for all of them. The other sizes are concrete per program (exhaustive, no solver needed).",
     PY_NOTE, "execution of the real map wrappers in the symbolic engine against a kernel model that asserts buffer sizes", "B:8/C10")
 
 chk("C09", TV,
